@@ -2,6 +2,7 @@ SPECIFICATION MCSpec
 CONSTANTS
   Fmt = "mus"
   MaxLen = 3
+  MaxLen2 = 3
   Tempi = {0}
 INVARIANT NoBad
 CHECK_DEADLOCK FALSE
